@@ -689,6 +689,10 @@ def parse_template(text):
         if m:
             cur.edits.append((m.group(1), _unq(m.group(2)), _unq(m.group(3)), m.group(4) or "1", ln))
             continue
+        m = re.match(r"^expand-macro\s+(\S+)\s*::\s*(\w+)\s*$", d)
+        if m:
+            cur.edits.append(("macro", m.group(1), m.group(2), "all", ln))
+            continue
         raise GenError("template line %d: bad directive line %r" % (ln, d))
     if cur is not None:
         raise GenError("template: unterminated block starting at line %d" % cur.tline)
@@ -712,8 +716,88 @@ class Generated:
         return "\n".join(self.lines) + "\n"
 
 
+_FRAG_RX = {"ident": r"([A-Za-z_]\w*)", "literal": r"(\d\w*)", "expr": r"(.+?)", "ty": r"([\w:<>]+)", "tt": r"(\S+)"}
+
+
+def macro_arms(src_text, name, where):
+    """Arms of `macro_rules! name { (pattern) => { body }; ... }` read from the repository source: [(regex, [var names], body)]."""
+    m = re.search(r"macro_rules!\s*%s\s*\{" % re.escape(name), src_text)
+    if not m:
+        raise GenError("lost anchor: macro_rules! %s not found (%s)" % (name, where))
+    i = m.end()
+    depth = 1
+    j = i
+    while j < len(src_text) and depth:
+        depth += {"{": 1, "}": -1}.get(src_text[j], 0)
+        j += 1
+    body = src_text[i:j - 1]
+    arms = []
+    for am in re.finditer(r"\(\s*(.*?)\s*\)\s*=>\s*\{\s*(.*?)\s*\}\s*;?", body, re.S):
+        pat, out = am.group(1), am.group(2)
+        rx = ""
+        names = []
+        pos = 0
+        for fm in re.finditer(r"\$(\w+):(\w+)", pat):
+            lit = pat[pos:fm.start()]
+            rx += r"\s*".join(re.escape(t) for t in lit.split()) if lit.strip() else ""
+            rx = rx + r"\s*"
+            if fm.group(2) not in _FRAG_RX:
+                raise GenError("macro %s: fragment kind %s outside the expander's subset (%s)" % (name, fm.group(2), where))
+            rx += _FRAG_RX[fm.group(2)] + r"\s*"
+            names.append(fm.group(1))
+            pos = fm.end()
+        lit = pat[pos:]
+        rx += r"\s*".join(re.escape(t) for t in lit.split()) if lit.strip() else ""
+        arms.append((re.compile(r"^\s*" + rx + r"\s*$", re.S), names, out))
+    if not arms:
+        raise GenError("macro %s: no arms parsed (%s)" % (name, where))
+    return arms
+
+
+def expand_macro(text, src_text, name, record, where):
+    """Rule R-macro: every invocation `name!(args)` in an extracted function is replaced by the body of the first matching arm of the
+    macro_rules! definition as it stands in the repository, with the metavariables substituted textually and the result parenthesised."""
+    arms = macro_arms(src_text, name, where)
+    out = ""
+    pos = 0
+    cnt = 0
+    for m in re.finditer(r"\b%s!\s*\(" % re.escape(name), text):
+        if m.start() < pos:
+            continue
+        i = m.end()
+        depth = 1
+        j = i
+        while j < len(text) and depth:
+            depth += {"(": 1, ")": -1}.get(text[j], 0)
+            j += 1
+        args = text[i:j - 1]
+        rep = None
+        for (rx, names, body) in arms:
+            mm = rx.match(args)
+            if mm:
+                rep = body
+                for k, nme in enumerate(names):
+                    rep = re.sub(r"\$%s\b" % re.escape(nme), lambda _m, v=mm.group(k + 1).strip(): v, rep)
+                break
+        if rep is None:
+            raise GenError("macro %s!(%s): no arm matches (%s)" % (name, args, where))
+        out += text[pos:m.start()] + "(" + rep + ")"
+        pos = j
+        cnt += 1
+    if cnt == 0:
+        raise GenError("lost anchor (no invocation of %s!) in %s" % (name, where))
+    record.append("macro %s! expanded from its definition in the repository (x%d)" % (name, cnt))
+    return out + text[pos:]
+
+
+_REPO_ROOT = [None]
+
+
 def _apply_edits(text, edits, record, where):
     for (mode, old, new, nth, tline) in edits:
+        if mode == "macro":
+            text = expand_macro(text, Source.get(_REPO_ROOT[0], old).text, new, record, where)
+            continue
         if mode == "replace":
             cnt = text.count(old)
             if cnt == 0:
@@ -769,6 +853,7 @@ def generate(unit, template_text, repo_root, units_dir=None):
     template_text = expand_bytes_macro(template_text)
     parsed, gsubs = parse_template(template_text)
     g = Generated()
+    _REPO_ROOT[0] = repo_root
     cur_props = []
     used_consts = {}
     for ent in parsed:
